@@ -1147,3 +1147,67 @@ def u_pop_ended(ip: Interp, th: PoolTheory):
         ip.require(s, "post:no-new-group", z3.ForAll([g], z3.Implies(p1.M.has(g), p0.M.has(g))), ("C07",))
         ip.require(s, "post:returns-exactly-the-done-members", z3.ForAll([t], v.has(t) == z3.Exists([g], z3.And(p0.M.has(g), p0.Mset(g, t), done(t)))) if isinstance(v, SetV) else z3.BoolVal(False), ("C07", "C08"))
         unchanged(ip, s, st0, "touches-only-the-meta-task-registry", ("C07",), except_=("_group_meta_tasks_running",))
+
+
+# ======================================================================================================
+# call-graph / frame declarations the thread model rests on (mechanical, from the AST of the whole package)
+# ======================================================================================================
+@unit("pool.callgraph", tuple(f"C{i:02d}" for i in range(1, 16)), [P_B + "_start_task", P_B + "_task_wrapper", P_B + "_task_ending", P_B + "_task_cancellation"])
+def u_callgraph(ip: Interp, th: PoolTheory):
+    repo = ip.repo
+    st = th.initial()
+    ALL = tuple(f"C{i:02d}" for i in range(1, 16))
+
+    def pool_fns(qs):
+        return sorted(q.replace(".getter", "").replace(".setter", "") for q in qs if q.startswith("pool."))
+
+    problems = []
+
+    def only(name, found, allowed, props=ALL):
+        # a site the declaration does not know is not a violation by itself (it may be a correct new helper): the
+        # thread model no longer matches the code, so the deductive check is *undecided* until the spec is extended
+        extra = sorted(set(found) - set(allowed))
+        if extra:
+            problems.append(f"{name}: also {extra}")
+        else:
+            ip.require(st, f"callgraph:{name}", z3.BoolVal(True), props)
+
+    refs = lambda a: pool_fns(repo.references(a))
+    writes = lambda a: pool_fns(repo.attr_writes(a))
+    # which coroutine runs in which kind of thread
+    only("_task_ending-is-referenced-only-by-the-wrapper", refs("_task_ending"), [P_B + "_task_wrapper"])
+    only("_task_cancellation-is-referenced-only-by-the-wrapper", refs("_task_cancellation"), [P_B + "_task_wrapper"])
+    only("_task_wrapper-is-turned-into-a-task-only-by-_start_task", refs("_task_wrapper"), [P_B + "_start_task"])
+    only("_start_task-is-called-only-by-the-spawner-coroutines", refs("_start_task"), [P_T + "_apply_spawner", P_T + "_arg_consumer", P_S + "_start_num"])
+    only("_apply_spawner-is-started-only-by-apply", refs("_apply_spawner"), [P_T + "apply"])
+    only("_arg_consumer-is-started-only-by-_map", refs("_arg_consumer"), [P_T + "_map"])
+    only("_start_num-is-started-only-by-start", refs("_start_num"), [P_S + "start"])
+    only("_map-is-called-only-by-the-map-family", refs("_map"), [P_T + "map", P_T + "starmap", P_T + "doublestarmap"])
+    # frames: who writes which field
+    only("_num_started-written-only-by-__init__-and-_start_task", writes("_num_started"), [P_B + "__init__", P_B + "_start_task"], ("C11",))
+    only("_locked-written-only-by-__init__-lock-unlock", writes("_locked"), [P_B + "__init__", P_B + "lock", P_B + "unlock"], ("C09",))
+    for f in ("_func", "_args", "_kwargs", "_end_callback", "_cancel_callback", "_start_calls"):
+        allowed = [P_S + "__init__"] + ([P_S + "start"] if f == "_start_calls" else [])
+        only(f"{f}-written-only-by-{'+'.join(a.split('.')[-1] for a in allowed)}", writes(f), allowed, ("C04", "C10"))
+    for f in ("_idx", "_name", "_enough_room", "_tasks_running", "_tasks_cancelled", "_tasks_ended", "_task_groups", "_group_meta_tasks_running", "_meta_tasks_cancelled", "_closed"):
+        only(f"{f}-bound-only-in-__init__", writes(f), [P_B + "__init__"], ("C11", "C01"))
+    only("the-semaphore-is-touched-only-by-known-functions", refs("_enough_room"),
+         [P_B + "__init__", P_B + "pool_size", P_B + "is_full", P_B + "_task_ending", P_B + "_start_task"], ("C01", "C02", "C15"))
+    only("the-running-registry-is-touched-only-by-known-functions", refs("_tasks_running"),
+         [P_B + "__init__", P_B + "num_running", P_B + "_task_cancellation", P_B + "_task_ending", P_B + "_start_task", P_B + "_get_running_task",
+          P_B + "_cancel_and_remove_all_from_group", P_B + "gather_and_close", P_S + "stop"], ("C03", "C13"))
+    only("the-cancelled-registry-is-touched-only-by-known-functions", refs("_tasks_cancelled"),
+         [P_B + "__init__", P_B + "num_cancelled", P_B + "_task_cancellation", P_B + "_task_ending", P_B + "_get_running_task", P_B + "flush", P_B + "gather_and_close"], ("C03", "C13"))
+    only("the-ended-registry-is-touched-only-by-known-functions", refs("_tasks_ended"),
+         [P_B + "__init__", P_B + "num_ended", P_B + "_task_ending", P_B + "_get_running_task", P_B + "flush", P_B + "gather_and_close"], ("C03", "C13"))
+    # the shipped subclasses override nothing of the base class (the base-class units hold for them)
+    base = set(repo.classes["BaseTaskPool"].methods) | set(repo.classes["BaseTaskPool"].props_get)
+    for sub in ("TaskPool", "SimpleTaskPool"):
+        over = sorted((set(repo.classes[sub].methods) | set(repo.classes[sub].props_get)) & base - {"__init__"})
+        ip.require(st, f"callgraph:{sub}-overrides-no-base-method", z3.BoolVal(not over), ALL, meta={"overridden": over})
+    # no other module of the package reaches into the pool's private state (the control package uses the public API)
+    private = ("_tasks_running", "_tasks_cancelled", "_tasks_ended", "_enough_room", "_task_groups", "_group_meta_tasks_running", "_num_started")
+    outside = sorted(q for a in private for q in repo.references(a) if not q.startswith("pool."))
+    ip.require(st, "callgraph:no-other-module-touches-the-pool's-private-state(U1-inside-the-package)", z3.BoolVal(not outside), ALL, meta={"found": outside})
+    if problems:
+        raise Unsupported("the call graph differs from the declared thread/frame model: " + "; ".join(problems))
